@@ -625,6 +625,7 @@ package frugal
 // A positive timeout becomes the deadline of the context handed to Thrift.
 //@ func lib.ToContext(fctx)
 //@   locals ctx, to
+//@   ensures result != nil
 //@   ensures ncalls("lib.FContext.Timeout") == 1
 //@   ensures callret("lib.FContext.Timeout", 0, 0) > 0 ==> ncalls("context.WithTimeout") == 1
 //@   ensures callret("lib.FContext.Timeout", 0, 0) > 0 ==> callarg("context.WithTimeout", 0, 1) == callret("lib.FContext.Timeout", 0, 0)
